@@ -320,6 +320,8 @@ structure Entry where
   fn : String            -- the C function installed in that slot for that access mode
   sites : List Site      -- in source order
   guards : List String   -- the other thread_queue_* calls it makes (emptiness checks, lock fast path), in source order
+  locked : List Bool := []  -- per site of `sites`: the call is made between taking the pool's lock (ABTD_spinlock_acquire /
+                            -- a successful thread_queue_acquire_spinlock_if_not_empty / pthread_mutex_lock) and releasing it
 deriving DecidableEq, Repr
 
 def Cond.holds (c : Cond) (ctx : Nat) : Bool := ((ctx &&& c.mask) != 0) == c.set
